@@ -54,7 +54,7 @@ Definition c08_check (c : c08_case) : bool :=
     (Z.of_nat (length (c8_calls c)) <=? n) &&
     (* exactness when every active host of the kind is eligible *)
     (if Nat.eqb (length elig) (length active_kind)
-     then Nat.eqb (length (c8_calls c)) (Nat.min (Z.to_nat n) (length elig)) else true) &&
+     then Z.eqb (Z.of_nat (length (c8_calls c))) (Z.min n (Z.of_nat (length elig))) else true) &&
     list_eqb N.eqb (isort (c8_reply c)) (isort acked) && nodupb (c8_reply c) &&
     N.eqb (c8_err c)
           (match acked with
